@@ -1,8 +1,9 @@
-//@unit FD3V : FrameDecoder::decode_all on its verbatim body, for every input and every target: frames and skippable frames are processed strictly in order until the input is empty, a skippable frame is skipped by exactly its declared length (or FailedToSkipFrame if the input is shorter), every frame is decoded to its end before the next header is read, the returned total is the sum of what was written and never exceeds the target, an undersized target is TargetTooSmall, no index / slice / overflow panic, termination; (decode_all_to_vec needs Vec::capacity / core::cmp::min, outside Verus' std specs: Kani unit FD3)
-//@props C10,C03,C06
+//@unit FD3V : StreamingDecoder::read (the io::Read front end) on its verbatim body, for every source and every request size: it decodes until the request can be served or the frame ends, asks decode_blocks for at most the missing amount (C05), a short read happens only when the frame is finished, Ok(0) on a non-empty request only when finished and drained, termination. FrameDecoder::decode_all on its verbatim body, for every input and every target: frames and skippable frames are processed strictly in order until the input is empty, a skippable frame is skipped by exactly its declared length (or FailedToSkipFrame if the input is shorter), every frame is decoded to its end before the next header is read, the returned total is the sum of what was written and never exceeds the target, an undersized target is TargetTooSmall, no index / slice / overflow panic, termination; (decode_all_to_vec needs Vec::capacity / core::cmp::min, outside Verus' std specs: Kani unit FD3)
+//@props C10,C03,C06,C05
 //@tier quick
 //@profile rel
 //@assume callee contracts: FrameDecoder::decode_blocks (PROVED in Verus unit FD1V; shared text include/contract_decode_blocks.rs), FrameDecoder::init (Kani H2/H4/FD4: a fresh unfinished state whose counter is the header bytes consumed; a skippable frame is reported as SkipFrame after exactly 8 bytes), Read for FrameDecoder (Kani D1/D2: draining only touches the buffer), can_collect (D2), is_finished (proved in FD1V)
+//@assume in StreamingDecoder::read `DEC` is instantiated with FrameDecoder (whose BorrowMut is the identity) and the default feature set is taken (R-cfgfeat: the `std` arm of the error conversion); FrameDecoder::read hands out min(collectable, request) (Kani D1/D2), can_collect is abstract
 //@assume the input slice is modelled as a reader that shrinks from the front (std / Kani IO1); here it is the COMPLETE input, so running out of bytes is an error (C10), not "need more"
 //@assume R-impl as in FD1V: `&mut input` arguments of init / decode_blocks are passed as `&mut input` to abstract functions taking `&mut R` with R = &[u8] (no rewrite needed here)
 use vstd::prelude::*;
@@ -170,7 +171,9 @@ impl FrameDecoder {
     pub fn read(&mut self, target: &mut [u8]) -> (r: Result<usize, Error>)
         ensures
             final(target)@.len() == old(target)@.len(),
-            r matches Ok(n) ==> n <= old(target)@.len(),
+            r matches Ok(n) ==> n <= old(target)@.len()
+                && n == (if old(self).spec_can_collect() < old(target)@.len() { old(self).spec_can_collect() } else { old(target)@.len() as int })
+                && final(self).spec_can_collect() == old(self).spec_can_collect() - n,
             final(self).state is Some <==> old(self).state is Some,
             old(self).state matches Some(s0) ==> ({
                 let s1 = final(self).state->0;
@@ -181,6 +184,14 @@ impl FrameDecoder {
     { unimplemented!() }
     #[verifier::external_body]
     pub fn can_collect(&self) -> (r: usize) ensures r == self.spec_can_collect(), { unimplemented!() }
+    /// `BorrowMut<FrameDecoder> for FrameDecoder` is the identity
+    pub fn borrow_mut(&mut self) -> (r: &mut FrameDecoder)
+        ensures *r == *old(self), *final(r) == *final(self),
+    { self }
+    /// what every streaming entry point maintains: once the last block has been decoded, its checksum (if flagged) has been read too
+    pub open spec fn streaming_inv(&self) -> bool {
+        self.state matches Some(s) ==> (s.frame_finished && s.frame_header.descriptor.spec_checksum_flag() ==> s.check_sum is Some)
+    }
     #[verifier::external_body]
     pub fn is_finished(&self) -> (r: bool) ensures r == self.spec_is_finished(), { unimplemented!() }
 
@@ -223,6 +234,46 @@ impl FrameDecoder {
                 proof { assert(output@.len() == out_len_before - bytes_written); }
 //@end
 
+}
+
+impl Error {
+    #[verifier::external_body]
+    pub fn other<E>(e: E) -> Error { unimplemented!() }
+}
+
+//@struct-check file=ruzstd/src/decoding/streaming_decoder.rs name=StreamingDecoder fields="pub decoder: DEC | source: READ"
+pub struct StreamingDecoder<READ: Read> {
+    pub decoder: FrameDecoder,
+    pub source: READ,
+}
+
+impl<READ: Read> StreamingDecoder<READ> {
+#[verifier::loop_isolation(false)]
+//@extract file=ruzstd/src/decoding/streaming_decoder.rs impl="^impl<READ: Read, DEC: BorrowMut<FrameDecoder>> Read for StreamingDecoder" fn=read
+//@spec
+        requires
+            !READ::incremental(), old(self).source.avail() >= 0,
+            old(self).decoder.streaming_inv(), old(self).decoder.spec_can_collect() >= 0,
+            old(self).decoder.state matches Some(st) ==> st.bytes_read_counter + old(self).source.avail() <= u64::MAX && st.block_counter + old(self).source.avail() <= usize::MAX
+                && st.decoder_scratch.buffer.spec_len() >= 0,
+        ensures
+            final(buf)@.len() == old(buf)@.len(),
+            r matches Ok(n) ==> n <= old(buf)@.len()
+                // a short read happens only when the frame is finished (C06: the bytes do not depend on the request sizes)
+                && (n < old(buf)@.len() ==> final(self).decoder.spec_is_finished())
+                // Ok(0) for a non-empty request means: finished and drained
+                && (n == 0 && old(buf)@.len() > 0 ==> final(self).decoder.spec_is_finished() && final(self).decoder.spec_can_collect() == 0),
+//@loop 1
+            invariant
+                self.source.avail() >= 0,
+                decoder.streaming_inv(),
+                decoder.state matches Some(st) ==> st.bytes_read_counter + self.source.avail() <= u64::MAX && st.block_counter + self.source.avail() <= usize::MAX
+                    && st.decoder_scratch.buffer.spec_len() >= 0,
+            decreases self.source.avail(),
+//@ghost before="match decoder.decode_blocks("
+            // C05: never ask for more than what is missing to serve the request
+            proof { assert(additional_bytes_needed + decoder.spec_can_collect() <= buf@.len()); assert(additional_bytes_needed >= 1); }
+//@end
 }
 
 } // verus!
